@@ -159,7 +159,7 @@ def judge_loader(d):
         warnings.simplefilter("ignore")
         if d["route"] == "group":
             gm = marr if mk in ("array", "provider") else None
-            garg = mask if mk == "provider" else gm
+            garg = mask if mk in ("provider", "converter") else gm
             res = loader.groupby("g").fsc(mask=garg, seed=seed, n_set=n_set, dfreq=dfreq or 0.05)
             res2 = loader.groupby("g").fsc(mask=garg, seed=seed, n_set=n_set, dfreq=dfreq or 0.05)
             halves = loader.groupby("g").average_split(n_set=n_set, seed=seed, squeeze=False)
@@ -171,6 +171,12 @@ def judge_loader(d):
                     continue
                 h = halves[key]
                 mm = 1.0 if gm is None else gm
+                if mk == "converter":
+                    # a mask made from the data: the converter applied to the average of the group's two half maps
+                    # (as the loader-level fsc does); whatever it is made from, it must not be silently dropped
+                    mm = np.asarray(mask.convert((h[0, 0] + h[0, 1]) / 2, scale))
+                    if not (0.0 < float(mm.mean()) < 1.0):
+                        continue  # degenerate mask: indistinguishable from no mask
                 for s in range(n_set):
                     compare_fsc(f"{tag} group {key} set {s}", df["freq"].to_numpy(), df[f"FSC-{s}"].to_numpy(),
                                 h[s, 0] * mm, h[s, 1] * mm, dfreq or 0.05, out)
